@@ -25,6 +25,10 @@ def sig_programs(chk, n):
             elif r < .55 and depth:
                 ops.append('e')
                 depth -= 1
+            elif r < .6 and depth:
+                ops.append('r')         # the body raises: all enclosing managers are left exceptionally, the program ends
+                depth = 0
+                break
             else:
                 ops.append('s')
         if rng.random() < .7:
